@@ -39,7 +39,7 @@ ASSUMPTIONS = ['_RangeIterator read-ahead size is >= 1 (max_batch_size >= 1).',
 
 
 def run(ctx: Ctx):
-  for r in (r1, r2, r3, r4, r6, r7, r8, r9, r10, r12, r13, r14, r15, r16, r17):
+  for r in (r1, r2, r3, r4, r6, r7, r8, r9, r10, r12, r13, r14, r15, r16, r17, r18):
     ctx.guard(r)
   from mlmverif.props import c10
   ctx.include('R-C09-11', '"rebuilding a shard from its recorded state yields the same'
@@ -1174,10 +1174,45 @@ def r17(ctx: Ctx):
   ctx.floor(rule, 1, n)
 
 
+def r18(ctx: Ctx):
+  rule = 'R-C09-18'
+  ctx.rule(rule, '"rebuilding a shard from its recorded state yields the same elements": two recorded states are EQUAL only when'
+           ' they rebuild the same shard — every field of the state dataclass (ShardConfig), the recorded parent chain'
+           ' included, takes part in its equality: no field is declared with `compare=False`. from_state() tests a state'
+           ' against the default one to recognise the unsharded source; a 1-way split of a shard (own fields 0/1/0) would'
+           ' otherwise equal the default and rebuild as the WHOLE source')
+  ci = ctx.repo.cls(IO, 'ShardConfig')
+  n = 0
+  for st in ci.node.body:
+    if not (isinstance(st, ast.AnnAssign) and isinstance(st.target, ast.Name)):
+      continue
+    n += 1
+    off = None
+    if isinstance(st.value, ast.Call):
+      k = kwarg(st.value, 'compare')
+      if isinstance(k, ast.Constant) and k.value is False:
+        off = st
+    anchor = next(iter(ctx.repo.cls(IO, 'SequenceDataSource').methods.values()))
+    what = f'ShardConfig.{st.target.id} takes part in the equality of recorded states'
+    if off is not None:
+      ctx.fail(rule, anchor, what,
+               f'`{unparse(st)[:70]}` excludes `{st.target.id}` from equality: states that rebuild different shards compare equal —'
+               ' a nested state whose own fields are the defaults is taken for the unsharded source', node=st)
+    else:
+      ctx.ok(rule, anchor, what, st)
+  eqoff = [d for d in ci.node.decorator_list if isinstance(d, ast.Call) and isinstance(kwarg(d, 'eq'), ast.Constant) and kwarg(d, 'eq').value is False]
+  if eqoff:
+    ctx.fail(rule, next(iter(ctx.repo.cls(IO, 'SequenceDataSource').methods.values())), 'ShardConfig compares by value',
+             'ShardConfig is declared with eq=False: recorded states compare by identity', node=eqoff[0])
+  ctx.floor(rule, 4, n)
+
+
 from mlmverif.selfcheck import B, OK  # noqa: E402
 
 _F = 'chainables/io.py'
 VARIANTS = [
+    B('parent-chain-excluded-from-state-equality', 'chainables/io.py',
+      "  parent: ShardConfig | None = dc.field(default=None, kw_only=True)", "  parent: ShardConfig | None = dc.field(default=None, kw_only=True, compare=False)", 'R-C09-18'),
     OK('sequence-iterator-counts-after-a-successful-draw-in-else', 'chainables/io.py',
        "      self._index += 1\n      raise\n    self._index += 1\n    return result\n\n  def __iter__(self) -> Self:", "      self._index += 1\n      raise\n    else:\n      self._index += 1\n    return result\n\n  def __iter__(self) -> Self:"),
     OK('range-cache-explicitly-unbounded', 'utils/iter_utils.py',
